@@ -11,13 +11,14 @@ CONSTANTS
   PREC = 100
   DEVIATIONS = {}
   EXTRAS = {0}
-  TAXES = {0, 2}
+  TAXES = {2, 100}
   REWARDS = {0, 5}
   FEES = {0, 100}
   PATHS = {"bank"}
   BURNS = {}
   DELAMTS = {1}
   MAXDEL = 1
+  MAXUPD = 0
   MAXJAIL = 1
   MAXEPOCHS = 3
   MAXOPS = 5
